@@ -44,6 +44,7 @@ type ltarget struct {
 type lvar struct{ name, ty string }
 
 type ltr struct {
+	lhs    []string // names on the left of a multi-value assignment from one call
 	tg     *ltarget
 	info   *types.Info
 	recv   string
@@ -345,6 +346,16 @@ func (t *ltr) call(e *ast.CallExpr, em *emitter, wantValue bool) string {
 		if s == "_" {
 			val = t.fresh()
 			names = append(names, val)
+		} else if strings.HasPrefix(s, "$") {
+			k := int(s[1] - '1')
+			if k < 0 || k >= len(t.lhs) {
+				t.fail(e, "binding wants more names on the left")
+			}
+			if t.lhs[k] == "_" {
+				names = append(names, t.fresh())
+			} else {
+				names = append(names, t.lhs[k])
+			}
 		} else if s == "%r" {
 			if _, ok := rx.(*ast.Ident); !ok {
 				t.fail(e, "binding updates a receiver that is not a variable")
@@ -467,6 +478,24 @@ func (t *ltr) stmts(list []ast.Stmt, scope []lvar, em *emitter, k func(scope []l
 			vs, ok := sp.(*ast.ValueSpec)
 			if !ok {
 				t.fail(s, "declaration")
+			}
+			if len(vs.Names) > 1 && len(vs.Values) == 1 {
+				call, ok := vs.Values[0].(*ast.CallExpr)
+				if !ok {
+					t.fail(s, "multi-value declaration")
+				}
+				t.lhs = nil
+				for _, n := range vs.Names {
+					t.lhs = append(t.lhs, n.Name)
+				}
+				t.call(call, em, false)
+				t.lhs = nil
+				for _, n := range vs.Names {
+					if n.Name != "_" {
+						declare(n.Name, t.info.TypeOf(n), n)
+					}
+				}
+				continue
 			}
 			for i, n := range vs.Names {
 				ty := t.info.TypeOf(n)
@@ -960,6 +989,20 @@ var listCalls = map[string]callSpec{
 			"Sequential.GetIterator":  {kind: "pure", tmpl: "%r"},
 		}
 
+// the set_ methods: the binary search is the translated `findIndex` above, the list underneath is the Seq model
+var setCalls = map[string]callSpec{
+			"$.findIndex":           {kind: "opt", tmpl: "findIndex (values_.length : Int) (fun i => Seq.getValue values_ i) rankValues %1 fuel", sets: []string{"$1", "$2"}},
+			"$.values_.InsertValue": {kind: "except", tmpl: "Seq.insertValue values_ (%1).toNat %2", sets: []string{"values_"}},
+			"$.values_.RemoveValue": {kind: "except", tmpl: "Seq.removeValue values_ %1", sets: []string{"_", "values_"}},
+			"$.values_.RemoveAll":   {kind: "let", tmpl: "([] : List α)", sets: []string{"values_"}},
+			"$.AddValue":            {kind: "opt", tmpl: "setAddValue rankValues %1 values_ fuel", sets: []string{"values_"}},
+			"$.RemoveValue":         {kind: "opt", tmpl: "setRemoveValue rankValues %1 values_ fuel", sets: []string{"values_"}},
+			"$.ContainsValue":       {kind: "opt", tmpl: "setContainsValue rankValues %1 values_ fuel", sets: []string{"_", "values_"}},
+			"Sequential.GetIterator": {kind: "pure", tmpl: "%r"},
+			"IteratorLike.GetNext":   {kind: "let", tmpl: "Seq.itNext %r", sets: []string{"_", "%r"}},
+			"IteratorLike.HasNext":   {kind: "pure", tmpl: "(!(%r).isEmpty)"},
+		}
+
 var rankerParams = "{σ : Type} (ranker : σ → α → α → Rank × σ)"
 
 var loopTargets = []*ltarget{
@@ -972,6 +1015,33 @@ var loopTargets = []*ltarget{
 			"$.collator_.RankValues": {kind: "pure", tmpl: "(rankValues %1 %2)"},
 		}, slices: "List α",
 		doc: "`getSize` = v.GetSize(), `getValue` = v.GetValue, `rankValues` = v.collator_.RankValues"},
+	{file: "LoopsSet.lean", pkg: "collection", recv: "set_", name: "AddValue", lean: "setAddValue",
+		params: "(rankValues : α → α → Rank)", args: "rankValues", state: []string{"values_"}, fields: map[string]string{"values_": "values_"},
+		calls: setCalls, slices: "List α"},
+	{file: "LoopsSet.lean", pkg: "collection", recv: "set_", name: "RemoveValue", lean: "setRemoveValue",
+		params: "(rankValues : α → α → Rank)", args: "rankValues", state: []string{"values_"}, fields: map[string]string{"values_": "values_"},
+		calls: setCalls, slices: "List α"},
+	{file: "LoopsSet.lean", pkg: "collection", recv: "set_", name: "ContainsValue", lean: "setContainsValue",
+		params: "(rankValues : α → α → Rank)", args: "rankValues", state: []string{"values_"}, fields: map[string]string{"values_": "values_"},
+		calls: setCalls, slices: "List α"},
+	{file: "LoopsSet.lean", pkg: "collection", recv: "set_", name: "AddValues", lean: "setAddValues",
+		params: "(rankValues : α → α → Rank)", args: "rankValues", state: []string{"values_"}, fields: map[string]string{"values_": "values_"},
+		calls: setCalls, slices: "List α"},
+	{file: "LoopsSet.lean", pkg: "collection", recv: "set_", name: "RemoveValues", lean: "setRemoveValues",
+		params: "(rankValues : α → α → Rank)", args: "rankValues", state: []string{"values_"}, fields: map[string]string{"values_": "values_"},
+		calls: setCalls, slices: "List α"},
+	{file: "LoopsSet.lean", pkg: "collection", recv: "set_", name: "ContainsAny", lean: "setContainsAny",
+		params: "(rankValues : α → α → Rank)", args: "rankValues", state: []string{"values_"}, fields: map[string]string{"values_": "values_"},
+		calls: setCalls, slices: "List α"},
+	{file: "LoopsSet.lean", pkg: "collection", recv: "set_", name: "ContainsAll", lean: "setContainsAll",
+		params: "(rankValues : α → α → Rank)", args: "rankValues", state: []string{"values_"}, fields: map[string]string{"values_": "values_"},
+		calls: setCalls, slices: "List α"},
+	{file: "LoopsSet.lean", pkg: "collection", recv: "set_", name: "GetIndex", lean: "setGetIndex",
+		params: "(rankValues : α → α → Rank)", args: "rankValues", state: []string{"values_"}, fields: map[string]string{"values_": "values_"},
+		calls: setCalls, slices: "List α"},
+	{file: "LoopsSet.lean", pkg: "collection", recv: "set_", name: "RemoveAll", lean: "setRemoveAll",
+		params: "(rankValues : α → α → Rank)", args: "rankValues", state: []string{"values_"}, fields: map[string]string{"values_": "values_"},
+		calls: setCalls, slices: "List α"},
 	// C13: the guards and constructors of the Stack (the list underneath is the Seq model)
 	{file: "LoopsStack.lean", pkg: "collection", recv: "stack_", name: "AddValue", lean: "stackAddValue",
 		params: "(capacity_ : Int)", args: "capacity_", state: []string{"values_"},
